@@ -5,11 +5,13 @@
      CorridorSequence                         [VL [call; ...]], call = VL of the six arguments above          obs: VL [result; ...]
      FitClearanceAroundExtendedSpatialID      [VS id; VF clearance]                                          obs: VL [VZ H; VZ V] | VE _
      FitSequence                              [VL [VL [VS id; VF clearance]; ...]]                           obs: VL [result; ...]
+     FitLoop                                  [VS id; VF clearance]  (the same call, judged against the replayed loops)  obs: as above
    The harness answers VS "out-of-domain" without calling the implementation when the arguments are outside the property's bounded
    quantifier (radius above 3 cell widths, horizontal zoom below 2 with a positive radius, ...: the fit does not terminate there, D16).
    Oracles (answered by the real Go code, never by a second implementation of the library):
      "line"  [p1; p2; VZ h; VZ v]          shape.GetExtendedSpatialIdsOnLine on the same arguments            -> ID list | VE _
      "fit"   [VS id; VF radius]            transform.FitClearanceAroundExtendedSpatialID                      -> VL [VZ H; VZ V] | VE _
+     "vdist" [VS id; VS probed]            the distance the fit measures between a voxel and a probed voxel (FitLoop only) -> VF d
    Independent reference (validation, harness/props/c14/geom.go):
      "hdist" [p1; p2; VF radius; VL ids]   for each ID a lower and an upper bound of the chord distance between the segment and the
                                            voxel's footprint                                                  -> VL [VL [VF lo; VF hi]; ...]
@@ -291,9 +293,53 @@ Definition d_fit_sequence (_ : oracle_t) (args : list val) (obs : val) : verdict
   | _, _ => bad_case
   end.
 
+(* FitLoop: the growth loops of FitClearanceAroundExtendedSpatialID replayed step by step (Corridor.fit_model, fuel 64): clearance < 0 and
+   arity checks, then the FIRST loop probes the voxel shifted by n = 1, 2, ... COLUMNS (GetShiftingSpatialID(id, n, 0, 0)) and stops at
+   the first n with not (clearance > dist), returning n - 1; then the SECOND loop does the same with the voxel shifted by n ROWS
+   (GetShiftingSpatialID(id, 0, n, 0): the y index, i.e. southwards). The distance of every probed pair is the oracle "vdist"
+   [VS id; VS probed] answered by the real shape / geodesy_go / closest_go calls; which voxel is probed is computed here (Shift model).
+   What the second count means: it is returned as `verticalLayer` and GetExtendedSpatialIdsWithinRadiusOfLine passes it to
+   GetNspatialIdsAroundVoxcels as the number of ALTITUDE layers, but it is measured along the latitude (y) axis: it does not depend on
+   the vertical zoom nor on the altitude index of the ID (the measured points carry the latitude in the height slot, so an altitude shift
+   would measure distance 0 for ever). Modelled as written; reported as a defect, not part of C14 (which speaks of the reported counts).
+   corr = the model's (H, V) / error equals the observed one;
+   prop = the observed counts are the least stops of their axes under those same oracle answers (Corridor.least_stop, the loop's
+          specification: C14_fit_loop_meets_spec), error exactly when the structure says so. *)
+Definition fit_fuel : nat := 64.
+Definition vdist_of (oracle : oracle_t) (id probed : string) : float :=
+  match oracle "vdist" [VS id; VS probed] with VF x => x | _ => nan end.
+Definition d_fitloop (oracle : oracle_t) (args : list val) (obs : val) : verdict :=
+  match args with
+  | [VS id; VF c] =>
+      if is_ood obs then mkv true true "-" VNil
+      else
+        match res_of_fit obs with
+        | None => bad_case
+        | Some o =>
+            let dx := fun id n => vdist_of oracle id (shift_api id n 0 0) in
+            let dy := fun id n => vdist_of oracle id (shift_api id 0 n 0) in
+            match fit_model fit_fuel dx dy id c with
+            | None => mkv false true "-" (VS "fuel")
+            | Some m =>
+                let same := match m, o with
+                            | Err, Err => true
+                            | Ok (a, b), Ok (a', b') => (a =? a')%Z && (b =? b')%Z
+                            | _, _ => false
+                            end in
+                let prop := match o with
+                            | Err => negb (is_ok m)
+                            | Ok (H, V) => is_ok m && least_stop c (dx id) H && least_stop c (dy id) V
+                            end in
+                mkv same prop "-" (fit_val m)
+            end
+        end
+  | _ => bad_case
+  end.
+
 Definition table_C14 : table :=
   [("GetExtendedSpatialIdsWithinRadiusOfLine", d_corridor);
    ("CorridorPair", d_pair);
    ("CorridorSequence", d_sequence);
    ("FitClearanceAroundExtendedSpatialID", d_fit);
-   ("FitSequence", d_fit_sequence)].
+   ("FitSequence", d_fit_sequence);
+   ("FitLoop", d_fitloop)].
